@@ -361,8 +361,12 @@ impl Color3f<Hsl> {
 
         rgb.map(|ch| {
             let ch = ch + m;
-            debug_assert!(0.0 <= ch && ch <= 1.0, "channel oob: {ch:?}");
-            ch
+            // `l - c / 2` and `c + m` only cancel to 0 and 1 up to rounding
+            debug_assert!(
+                -1e-6 <= ch && ch <= 1.0 + 1e-6,
+                "channel oob: {ch:?}"
+            );
+            ch.clamp(0.0, 1.0)
         })
         .into()
     }
